@@ -4,6 +4,9 @@
 import json, glob, re, textwrap
 metas = [json.load(open(f)) for f in sorted(glob.glob('/verif/seeded/*/meta.json'))]
 def first(m):
+    b = m['check_result'].get('quick_before_strengthening')
+    if b:
+        return b['verdict']
     n = m.get('note', '')
     if n.startswith('Missed'): return 'missed'
     if n.startswith('First evaluation'): return 'inconclusive'
@@ -12,7 +15,7 @@ def block(ms):
     out = []
     for m in ms:
         res = m['check_result']
-        tier = 'quick' if 'quick' in res else sorted(res)[0]
+        tier = 'quick' 
         r = res[tier]
         out.append(f"* `{m['seed']}` ({m['property']}) - {m['summary']}.")
         out.append(f"  Needs: {m['needs_to_manifest']}.")
@@ -24,6 +27,7 @@ def block(ms):
                                    subsequent_indent='  ', break_on_hyphens=False, break_long_words=False) for l in out)
 r1 = [m for m in metas if m.get('round', 1) == 1]
 r2 = [m for m in metas if m.get('round', 1) == 2]
+r3 = [m for m in metas if m.get('round', 1) == 3]
 p = '/verif/DESIGN.md'
 s = open(p).read()
 def put(s, tag, title, ms):
@@ -33,6 +37,7 @@ def put(s, tag, title, ms):
     return s.replace(tag, body, 1)
 s = put(s, 'ROUND1', '11.1 Round 1 (one change per property)', r1)
 s = put(s, 'ROUND2', '11.2 Round 2 (a different clause of each property)', r2)
+s = put(s, 'ROUND3', '11.3 Round 3 (subtle changes, a third clause or mechanism)', r3)
 open(p, 'w').write(s)
 c = {}
 for m in metas:
